@@ -1667,6 +1667,10 @@ class Kconfig(object):
                 sym.resolve_defaults()
 
             for choice in choices_with_default_values:
+                if replace and not choice._was_set:
+                    # A pick from before this load, which replaces the configuration: resolve_defaults() would take it
+                    # for a selection the file made and user-set every member, so that nothing is unset below
+                    choice.unset_value()
                 choice.resolve_defaults()
 
             # Invalidate all cached values as we edited the configuration
